@@ -62,7 +62,7 @@ def generate(rng, tier, idx):
         YV = (YV + 1) % (Y.max() + 1)
         YV[0] = int(Y.max())
     return {"part": part, "metric": name, "X": X.tolist(), "Y": [int(v) for v in Y], "V": V.tolist(), "YV": [int(v) for v in YV],
-            "iters": int(rng.integers(1, 11)), "rng_seed": int(rng.integers(0, 2 ** 31 - 1))}
+            "iters": int(rng.integers(0 if part == "prune" else 1, 11)), "rng_seed": int(rng.integers(0, 2 ** 31 - 1))}
 
 
 def check(case):
